@@ -183,6 +183,50 @@ class Monitors:
                               + (' (equals the construction with the beam LOWERED)' if lowered else ''),
                               case2, path=path, output=key, matches_lowered_beam=lowered)
 
+    def frame(self, ev):
+        """beam_aligned_unit_vectors: e_y = -g/|g|, e_z = the normalised projection of b1 perpendicular to e_y,
+        e_x = e_y x e_z (documented); refusal only for beams parallel to gravity."""
+        name = 'beam_aligned_unit_vectors'
+        ctx = self.ctx
+        case = {'function': name, **self.meta, 'args': {k: describe(v) for k, v in ev.args.items()}}
+        if ev.exc is not None:
+            if self.meta.get('parallel_to_gravity') and isinstance(ev.exc, ValueError):
+                ctx.event('frame.refused')
+                return
+            if self.meta.get('family') in ('direct', 'yz', 'tilt_sweep', 'limits', 'frame'):
+                ctx.violation('frame_raised', f'{name} raised {type(ev.exc).__name__}: {ev.exc}', case)
+            return
+        if self.meta.get('parallel_to_gravity'):
+            ctx.violation('frame_not_refused', f'{name} accepted an incident beam parallel to gravity', case)
+            return
+        try:
+            b1 = geom.v3(np.asarray(ev.args['incident_beam'].values))
+            g = geom.v3(np.asarray(ev.args['gravity'].values))
+            ey = -g / geom.norm(g)[..., None]
+            b1, ey = np.broadcast_arrays(b1, ey)
+            z = b1 - np.sum(b1 * ey, axis=-1)[..., None] * ey
+            zn = geom.norm(z)
+            ez = z / zn[..., None]
+            ex = np.cross(ey, ez)
+            got = {k: np.asarray(ev.result['beam_aligned_unit_' + k].values).astype(si.LD) for k in 'xyz'}
+            # conditioning of the projection: |b1| / |z_proj|
+            cond = geom.norm(b1) / zn
+            tol = {'x': 64 * si.EPS64 * cond, 'y': 8 * si.EPS64 * np.ones_like(cond), 'z': 64 * si.EPS64 * cond}
+            want = {'x': ex, 'y': ey, 'z': ez}
+        except Exception:  # noqa: BLE001
+            ctx.oracle_error(name)
+            return
+        ctx.event(name)
+        for k in 'xyz':
+            gk = np.broadcast_to(got[k], want[k].shape) if got[k].shape != want[k].shape else got[k]
+            d = np.max(np.abs(gk - want[k]), axis=-1)
+            frac = float(np.max(d / tol[k]))
+            ctx.dev(f'frame.e{k} (fraction of bound)', frac)
+            unit_ok = ev.result['beam_aligned_unit_' + k].unit == sc.units.dimensionless
+            if frac > 1 or not unit_ok:
+                ctx.violation('frame', f'{name}: e_{k} differs from the documented construction by '
+                              f'{float(np.max(d)):.3g}' + ('' if unit_ok else ' (not dimensionless)'), case, axis=k)
+
     def yz(self, ev):
         name = 'scattering_angle_in_yz_plane'
         ctx = self.ctx
@@ -416,6 +460,38 @@ def run_case(rng, ctx, K, mon, i=0):
     return sig, trivial, args
 
 
+def frame_case(rng, ctx, K, mon, j):
+    """Direct calls of the public beam_aligned_unit_vectors: any tilt up to nearly parallel, per-pixel beams,
+    positional and keyword calls, and the refusal for a beam parallel to gravity."""
+    ghat = geom.random_unit(rng, 1)[0]
+    gmag = GMAGS[rng.integers(0, len(GMAGS))]
+    h = geom.perpendicular_unit(rng, ghat[None, :])[0].astype(np.float64)
+    n = int(rng.integers(1, 6))
+    parallel = j % 8 == 7
+    ang = rng.uniform(-1.5, 1.5, size=n)
+    if parallel:
+        b1 = (np.cos(ang)[:, None] * h[None, :] - np.sin(ang)[:, None] * ghat[None, :]) * 10.0 ** rng.uniform(-1, 2)
+        # one beam of the array (or the only one) is parallel to gravity
+        b1[int(rng.integers(0, n))] = ghat * (1.0 if rng.random() < 0.5 else -1.0) * 10.0 ** rng.uniform(-1, 2)
+    else:
+        ang = rng.uniform(-1.5, 1.5, size=n)  # elevation out of the horizontal
+        b1 = (np.cos(ang)[:, None] * h[None, :] - np.sin(ang)[:, None] * ghat[None, :]) * 10.0 ** rng.uniform(-1, 2)
+    ub = LEN_UNITS[rng.integers(0, 3)]
+    ug = G_UNITS[rng.integers(0, 3)]
+    beam = sc.vectors(dims=['pixel'], values=b1, unit=ub) if (len(b1) > 1 or rng.random() < 0.5) else sc.vector(b1[0], unit=ub)
+    g = sc.vector(ghat * max(gmag, 1e-3), unit=ug)
+    mon.meta = {'family': 'frame', 'parallel_to_gravity': parallel}
+    try:
+        if j % 2:
+            K.beam_aligned_unit_vectors(beam, g)
+        else:
+            K.beam_aligned_unit_vectors(incident_beam=beam, gravity=g)
+    except Exception:  # noqa: BLE001  judged by the monitor
+        pass
+    mon.meta = {}
+    return ('frame', ub, ug, 'parallel' if parallel else 'tilted', beam.ndim)
+
+
 def limits_case(rng, ctx, K, mon):
     """lambda -> 0 and |g| -> 0 equal the gravity-free two_theta of the same beams (observed)."""
     cfg = make_config(rng, ctx, gmag=1e-11 if rng.random() < 0.5 else 9.80665)
@@ -452,7 +528,7 @@ def requirements(tier):
     return {
         'events': {'scattering_angles_with_gravity': 200, 'path.generic': 50, 'path.orthogonal': 30,
                    'scattering_angle_in_yz_plane': 10, 'yz.refused': 10,
-                   'binding.scattering_angles_with_gravity': 20, 'binding.scattering_angle_in_yz_plane': 10, 'continuity': 50, 'limit': 10},
+                   'beam_aligned_unit_vectors': 100, 'frame.refused': 5, 'binding.scattering_angles_with_gravity': 20, 'binding.scattering_angle_in_yz_plane': 10, 'continuity': 50, 'limit': 10},
         'forced': [f'tilt:{t:g}' for t in TILTS] + [f'|g|:{g:g}' for g in GMAGS] + ['detector above beam', 'per-pixel incident beams tilted up', 'per-pixel incident beams tilted down']
         + ['axis-aligned: ' + k for k in AXIS_KINDS],
     }
@@ -468,6 +544,7 @@ def run(shard, ctx):
     tr.watch(K._scattering_angles_with_gravity_orthogonal_coords, 'orthogonal', on_return=mon.mark('orthogonal'))
     tr.watch(K.scattering_angles_with_gravity, 'scattering_angles_with_gravity', on_return=mon.angles)
     tr.watch(K.scattering_angle_in_yz_plane, 'scattering_angle_in_yz_plane', on_return=mon.yz)
+    tr.watch(K.beam_aligned_unit_vectors, 'beam_aligned_unit_vectors', on_return=mon.frame)
     with tr:
         for i in range(shard['cases']):
             before = ctx.n_violations
@@ -475,6 +552,8 @@ def run(shard, ctx):
             ctx.case(sig, trivial=trivial)
             if i < 2 or (ctx.n_violations > before and len(ctx.samples) < 6):
                 ctx.sample({'signature': sig, 'args': {k: describe(v) for k, v in args.items()}})
+        for j in range(shard['sweeps'] * 4):
+            ctx.case(frame_case(rng, ctx, K, mon, j))
         for _ in range(shard['sweeps']):
             ctx.case(tilt_sweep(rng, ctx, K, mon))
             ctx.case(limits_case(rng, ctx, K, mon))
